@@ -4543,14 +4543,15 @@ class ResponseFuture(object):
             # This also prevents a race condition accessing the iterator.
             # We reschedule this call until the main thread has succeeded
             # making a query
-            if not self.attempted_hosts:
-                self._timer = self.session.cluster.connection_class.create_timer(0.01, self._on_speculative_execute)
-                return
-
             if self._time_remaining is not None:
                 if self._time_remaining <= 0:
                     self._on_timeout()
                     return
+
+            if not self.attempted_hosts:
+                self._timer = self.session.cluster.connection_class.create_timer(0.01, self._on_speculative_execute)
+                return
+
             self.send_request(error_no_hosts=False)
             self._start_timer()
 
